@@ -34,7 +34,14 @@ def run_tonsq(ctx, binp, label, replay=None):
     env = {"VERIF_SEED": ctx.seed, "VERIF_N": ctx.budget(3000, 60000), "VERIF_OUT": out}
     if replay:
         env["VF_E8_REPLAY"] = replay
-    rc, log = ctx.run_cmd([binp, "-test.run", "^TestVerifToNsqCorr$", "-test.count=1"], timeout=ctx.budget(300, 1800), env=env)
+    cmd = [binp, "-test.run", "^TestVerifToNsqCorr$", "-test.count=1", "-test.timeout=0"]
+    rc, log = ctx.run_cmd(cmd, timeout=ctx.budget(300, 1800), env=env)
+    if (rc != 0 or "ORACLE-DONE" not in log) and "ORACLE-FAIL" not in log:
+        # infrastructure failure (seen once in six thorough runs on a loaded machine, no oracle line): keep the
+        # log tail in the evidence and run the leg once more before calling the harness broken
+        ctx.log("to_nsq harness ended without a verdict (%s), retrying once:\n%s" % (label, log[-800:]))
+        ctx.corr.setdefault("to_nsq_harness_retries", []).append(log[-300:])
+        rc, log = ctx.run_cmd(cmd, timeout=ctx.budget(300, 1800), env=env)
     if rc != 0 or "ORACLE-DONE" not in log:
         ctx.log("to_nsq harness failed (%s):\n%s" % (label, log[-1500:]))
         return None, log
